@@ -5,6 +5,9 @@ import DhcpProofs.Props.C06
 import DhcpProofs.Props.C16
 import DhcpProofs.Props.C18
 import DhcpProofs.Props.C19
+import DhcpProofs.Lemmas.C03Relay
+import DhcpProofs.Lemmas.C03Observe6
+import DhcpProofs.Lemmas.C03Observe4
 /-
   C03 — no input can crash decoding or any read-only use of a decoded message.
 
@@ -26,11 +29,24 @@ import DhcpProofs.Props.C19
   buffer); labels: `C03_label_terminates`.
 
   Labels and raw frames: restated from C19 / C18, which own those models.
+
+  Read-only use of decoded values (second half of this file; models
+  Dhcp/V6/Build.lean, Dhcp/V6/Observe.lean, Dhcp/V4/Observe.lean,
+  Dhcp/V4/Values.lean; correspondence stream `c03x`): relay decapsulation at
+  every index, `GetMacAddressFromEUI64`, `ExtractMAC`, the netboot extractors
+  over conversations of any length, the ZTP vendor-string parsers, the DHCPv4
+  typed accessors and DHCPv6 re-encoding.  Statements that are true of every
+  value are stated for every value; the ones that need decodedness say
+  `dec6 b = .ok m` and come with a hand-built counterexample (`C03_*_full`
+  false), because there the Go code does panic on values no decoder produces.
+
   Not proved here (see `missing_part` in the evidence): String/Summary
-  formatting, the ZTP/netboot string handling, typed accessors, builders, relay
-  handling, architecture lists — where models exist they belong to the checks
-  C15–C17; for those operations C03's assurance is the crash search of oracle
-  c03 on the real code (recover + watchdog around every call).
+  formatting (goes through `fmt`), `ztpv4.ParseCircuitID`'s eleven regular
+  expressions and `ztpv6.ParseRemoteID`'s two (abstracted as a total matcher:
+  Go's `regexp` is trusted not to panic), the DHCPv4 builders (C15), the other
+  DHCPv6 typed accessors, architecture lists; for those C03's assurance is the
+  crash search of oracle c03 on the real code (recover + watchdog around every
+  call).
 -/
 namespace Dhcp.Props
 open Dhcp
@@ -157,5 +173,251 @@ example : V6.dec6 [1, 0xaa, 0xbb, 0xcc, 0, 8, 0, 2, 0, 5] =
     .ok (.msg 1 [0xaa, 0xbb, 0xcc] [.elapsed 50000000]) := by rfl
 
 example : V4.writeIP (some [1, 2, 3, 4, 5]) = .panic := by decide
+
+/-! ## Read-only use of decoded values -/
+
+open Dhcp.V6 Dhcp.Spec in
+/-- **C03 (shape of decoded messages).** What the observers below rely on, at every
+nesting depth: an `OptionGeneric` only carries a code outside the `ParseOption`
+table (so an option found under a known code has that code's Go type), relay
+headers carry 16-byte addresses and a relay type, other messages any other type,
+an embedded DHCPv4 message was accepted by the DHCPv4 decoder. -/
+theorem C03_decoded_shape (b : Bytes) (m : V6.Msg6) (h : V6.dec6 b = .ok m) : V6.DecMsg m :=
+  V6.decMsg_of_dec6 h
+
+/-! ### relay decapsulation (dhcpv6/dhcpv6.go) -/
+
+/-- **C03 (DecapsulateRelay).** Never panics, for every message value: the assertion
+`l.(*RelayMessage)` follows an `IsRelay()` test and `RelayOptions.RelayMessage()`
+uses a checked assertion. -/
+theorem C03_decapsulateRelay (m : V6.Msg6) : V6.decapsulateRelay m ≠ .panic := V6.decapsulateRelay_ne_panic m
+
+/-- **C03 (DecapsulateRelayIndex).** Never panics, for every message value (decoded or
+built by hand) and every index: negative, in range, beyond the depth. -/
+theorem C03_decapsulateRelayIndex (m : V6.Msg6) (idx : Int) : V6.decapsulateRelayIndex m idx ≠ .panic :=
+  V6.decapsulateRelayIndex_ne_panic m idx
+
+/-- a message that is not a relay message is returned as it is, whatever the index -/
+theorem C03_decapsulateRelayIndex_nonrelay (m : V6.Msg6) (hm : m.isRelay = false) (idx : Int) :
+    V6.decapsulateRelayIndex m idx = .ok m := by
+  simp [V6.decapsulateRelayIndex, hm]
+
+/-- **C03 (which level DecapsulateRelayIndex returns).** On a relay chain with levels
+`lvls` (outermost first) around the non-relay message `inner`: index `k ≥ 0`
+with `k + 1 < |lvls|` returns the relay message `k + 1` levels down (the chain
+without its first `k + 1` levels); every index with `k + 1 ≥ |lvls|` — at and
+beyond the depth — returns `inner`; `-1` returns the innermost relay LEVEL (a
+one-level chain around `inner`, its header the last of `lvls`), not the message;
+every index below `-1` is an error. -/
+theorem C03_decapsulateRelayIndex_chain (c inner : V6.Msg6) (lvls : List Spec.RLevel)
+    (h : Spec.Chain c lvls inner) :
+    (∀ k : Nat, k + 1 < lvls.length →
+      ∃ c', V6.decapsulateRelayIndex c (k : Int) = .ok c' ∧ Spec.Chain c' (lvls.drop (k + 1)) inner) ∧
+    (∀ k : Nat, lvls.length ≤ k + 1 → V6.decapsulateRelayIndex c (k : Int) = .ok inner) ∧
+    (∃ c' lv, V6.decapsulateRelayIndex c (-1) = .ok c' ∧ Spec.Chain c' [lv] inner ∧ lvls.getLast? = some lv) ∧
+    (∀ i : Int, i < -1 → V6.decapsulateRelayIndex c i = .err) :=
+  V6.decapsulateRelayIndex_chain h
+
+/-- … and on a relay message one of whose levels lacks a (usable) relay-message
+option: `-1` is an error, so is every index that reaches past the break (every
+`k` with `k + 1 ≥ msgDepth c`), so is any index below `-1`; an index that stays
+above the break returns the relay level found there, itself a broken chain;
+never a panic. -/
+theorem C03_decapsulateRelayIndex_broken (c : V6.Msg6) (h : Spec.Broken c) :
+    V6.decapsulateRelayIndex c (-1) = .err ∧
+    (∀ k : Nat, V6.msgDepth c ≤ k + 1 → V6.decapsulateRelayIndex c (k : Int) = .err) ∧
+    (∀ i : Int, i < -1 → V6.decapsulateRelayIndex c i = .err) ∧
+    (∀ k : Nat, V6.decapsulateRelayIndex c (k : Int) = .err ∨
+      ∃ c', V6.decapsulateRelayIndex c (k : Int) = .ok c' ∧ Spec.Broken c') :=
+  V6.decapsulateRelayIndex_broken h
+
+/-- the two cases cover every relay message -/
+theorem C03_relay_chain_or_broken (c : V6.Msg6) (hc : c.isRelay = true) :
+    (∃ lvls inner, Spec.Chain c lvls inner) ∨ Spec.Broken c :=
+  (C16_inner_total c).2 hc
+
+/-- the `for { … }` loop of index `-1` terminates: the model's out-of-fuel branch is
+unreachable (any fuel ≥ the nesting depth gives the same result).  A cyclic
+`RelayMessage` graph, which would make the Go loop spin, is not a value of
+`Msg6` and not something `FromBytes` can build. -/
+theorem C03_lastRelay_fuel (c : V6.Msg6) (hc : c.isRelay = true) (f1 f2 : Nat)
+    (h1 : V6.msgDepth c ≤ f1) (h2 : V6.msgDepth c ≤ f2) : V6.lastRelay f1 c = V6.lastRelay f2 c :=
+  V6.lastRelay_fuel f1 f2 c hc h1 h2
+
+/-- whatever `DecapsulateRelayIndex` returns from a decoded message is decoded -/
+theorem C03_decapsulateRelayIndex_decoded (b : Bytes) (m r : V6.Msg6) (idx : Int) (h : V6.dec6 b = .ok m)
+    (hr : V6.decapsulateRelayIndex m idx = .ok r) : V6.DecMsg r :=
+  V6.decapsulateRelayIndex_dec (V6.decMsg_of_dec6 h) hr
+
+/-! ### MAC extraction (dhcpv6/iputils.go) -/
+
+/-- **C03 (GetMacAddressFromEUI64, exactly).** The function panics on exactly the
+4-byte addresses: `ip.To16() == nil` lets them through and `ip[11]` is then out
+of range.  Nil, 16-byte and all other lengths give a value or an error. -/
+theorem C03_getMac_panic_iff (ip : V6.IP) :
+    V6.getMacAddressFromEUI64 ip = .panic ↔ ∃ b, ip = some b ∧ b.length = 4 :=
+  V6.getMacAddressFromEUI64_panic_iff ip
+
+/-- … so it does not panic on any address field of a decoded message (16 bytes) -/
+theorem C03_getMac_decoded (b : Bytes) (t h : UInt8) (link peer : V6.IP) (os : List V6.Opt6)
+    (hd : V6.dec6 b = .ok (.relay t h link peer os)) :
+    V6.getMacAddressFromEUI64 peer ≠ .panic ∧ V6.getMacAddressFromEUI64 link ≠ .panic := by
+  have := V6.decMsg_of_dec6 hd
+  exact ⟨V6.getMacAddressFromEUI64_ne_panic_of_ip16 this.2.2.1, V6.getMacAddressFromEUI64_ne_panic_of_ip16 this.2.1⟩
+
+/-- **C03 (ExtractMAC).** No decoded message, relay or not, at any depth, makes
+`ExtractMAC` panic: `inner.(*RelayMessage)` holds because index `-1` returns a
+relay level, `GetMacAddressFromEUI64` gets a 16-byte peer address,
+`msg.(*Message)` holds for the innermost message and the unchecked
+`opt.(*optClientID)` inside `ClientID()` holds because a decoded option with
+code 1 is a client-id option. -/
+theorem C03_extractMAC (b : Bytes) (m : V6.Msg6) (h : V6.dec6 b = .ok m) : V6.extractMAC m ≠ .panic :=
+  V6.extractMAC_dec (V6.decMsg_of_dec6 h)
+
+/-- the same for every message value is FALSE: hand-built values reach both panics -/
+def C03_extractMAC_full : Prop := ∀ m : V6.Msg6, V6.extractMAC m ≠ .panic
+
+theorem C03_extractMAC_counterexample : ¬ C03_extractMAC_full := by
+  intro h
+  exact h (.msg 1 [] [.generic 1 []]) (by decide)
+
+/-- a relay level with a 4-byte peer address (only constructible by hand) panics too -/
+example : V6.extractMAC (.relay 12 0 none (some [10, 0, 0, 1]) [.relayMsg (.msg 1 [] [])]) = .panic := by decide
+
+/-! ### netboot -/
+
+/-- **C03 (GetNetConfFromPacketv6).** On the options of a decoded message: the
+unchecked `o.(*OptIANA)` and `o.(*OptIAAddress)` hold. -/
+theorem C03_getNetConfFromPacketv6 (b : Bytes) (t : UInt8) (x : Bytes) (os : List V6.Opt6)
+    (h : V6.dec6 b = .ok (.msg t x os)) : V6.getNetConfFromPacketv6 os ≠ .panic :=
+  V6.getNetConfFromPacketv6_ne_panic (V6.decMsg_of_dec6 h).2
+
+/-- **C03 (ConversationToNetconf).** For every list of decoded messages — any length,
+any mix of types, relay messages included: no panic.  `m.(*dhcpv6.Message)` is
+only evaluated for types ADVERTISE and REPLY, which no decoded relay message
+has; `advertise` is only dereferenced behind its nil test. -/
+theorem C03_conversationToNetconf (ms : List V6.Msg6) (h : ∀ m ∈ ms, ∃ b, V6.dec6 b = .ok m) :
+    V6.conversationToNetconf ms ≠ .panic :=
+  V6.conversationToNetconf_ne_panic (fun m hm => let ⟨_, hb⟩ := h m hm; V6.decMsg_of_dec6 hb)
+
+def C03_conversationToNetconf_full : Prop := ∀ ms : List V6.Msg6, V6.conversationToNetconf ms ≠ .panic
+
+/-- a hand-built `RelayMessage` whose `MessageType` is REPLY fails the assertion -/
+theorem C03_conversationToNetconf_counterexample : ¬ C03_conversationToNetconf_full := by
+  intro h
+  exact h [.relay 7 0 none none []] (by decide)
+
+/-- non-vacuity and the fallback: a REPLY with an address but no boot file URL takes
+the URL of the ADVERTISE; without an ADVERTISE that is an error, not a panic
+(the nil dereference fixed in /repo by 46ccaa9) -/
+example :
+    V6.conversationToNetconf
+      [.msg 2 [1, 2, 3] [.bootfileURL [104]], .msg 7 [1, 2, 3] [.iana [0, 0, 0, 1] 0 0 [.iaaddr none 0 0 []]]] =
+      .ok { net := { addrs := [⟨none, 0, 0⟩], dns := [], search := [], ntp := [] }, url := [104], params := [] } ∧
+    V6.conversationToNetconf [.msg 7 [1, 2, 3] [.iana [0, 0, 0, 1] 0 0 []]] = .err := by decide
+
+/-- **C03 (GetNetConfFromPacketv4 / ConversationToNetconfv4).** No panic, for every
+address, option map and conversation (decoded or not): they only go through
+typed accessors. -/
+theorem C03_getNetConfFromPacketv4 (yiaddr : V4.IP) (o : V4.GOpts) : V4.Obs.getNetConfFromPacketv4 yiaddr o ≠ .panic :=
+  V4.Obs.getNetConfFromPacketv4_ne_panic yiaddr o
+
+theorem C03_conversationToNetconfv4 (conv : List V4.Pkt4) : V4.Obs.conversationToNetconfv4 conv ≠ .panic :=
+  V4.Obs.conversationToNetconfv4_ne_panic conv
+
+/-! ### ZTP vendor strings -/
+
+/-- `strings.Split` returns at least one piece, and at least two when the string
+starts with a prefix that contains the (one-byte) separator — what makes the
+unguarded `p[1]` of ztpv4's `Juniper-` case safe -/
+theorem C03_split_pieces (s sep : Bytes) :
+    1 ≤ (Str.split s sep).length ∧
+    ∀ (p : Bytes) (d : UInt8), sep = [d] → Str.hasPrefix s p = true → d ∈ p → 2 ≤ (Str.split s sep).length :=
+  ⟨Str.split_length_pos s sep, fun _ _ hs hp hd => by subst hs; exact Str.split_two_of_hasPrefix hp hd⟩
+
+/-- **C03 (ztpv6.ParseVendorData).** On every decoded message (relay or not):
+`opt17.(*OptVendorOpts)` / `opt16.(*OptVendorClass)` hold, every index into a
+split result lies below the length tested just before, and the Ciena branch's
+`GetInnerMessage` / `ClientID()` run on decoded messages. -/
+theorem C03_ztp6_parseVendorData (b : Bytes) (m : V6.Msg6) (h : V6.dec6 b = .ok m) :
+    V6.ztp6ParseVendorData m ≠ .panic :=
+  V6.ztp6ParseVendorData_ne_panic (V6.decMsg_of_dec6 h)
+
+def C03_ztp6_parseVendorData_full : Prop := ∀ m : V6.Msg6, V6.ztp6ParseVendorData m ≠ .panic
+
+theorem C03_ztp6_parseVendorData_counterexample : ¬ C03_ztp6_parseVendorData_full := by
+  intro h
+  exact h (.msg 1 [] [.generic 17 []]) (by decide)
+
+/-- **C03 (ztpv6.ParseRemoteID).** For every message value and every total matcher in
+place of the two regular expressions. -/
+theorem C03_ztp6_parseRemoteID (mc : Bytes → Option V6.CircuitID) (m : V6.Msg6) : V6.parseRemoteID mc m ≠ .panic :=
+  V6.parseRemoteID_ne_panic mc m
+
+/-- **C03 (ztpv4.ParseVendorData, parseClassIdentifier, parseVIVC).** For every option
+map, whatever octets options 60, 12, 61 and 124 hold. -/
+theorem C03_ztp4_parseVendorData (o : V4.GOpts) :
+    V4.Obs.parseVendorData o ≠ .panic ∧ V4.Obs.parseClassIdentifier o ≠ .panic ∧ V4.Obs.parseVIVC o ≠ .panic :=
+  ⟨V4.Obs.parseVendorData_ne_panic o, V4.Obs.parseClassIdentifier_ne_panic o, V4.Obs.parseVIVC_ne_panic o⟩
+
+/-- **C03 (ztpv4.ParseCircuitID).** For every option map and every total matcher in
+place of the eleven regular expressions. -/
+theorem C03_ztp4_parseCircuitID {γ : Type} (mc : Bytes → Option γ) (o : V4.GOpts) :
+    V4.Obs.parseCircuitID mc o ≠ .panic :=
+  V4.Obs.parseCircuitID_ne_panic mc o
+
+/-- the vendor-string parsers on decoded packets (what the stream exercises) -/
+theorem C03_ztp4_decoded (b : Bytes) (p : V4.Pkt4) (_h : V4.dec4 b = .ok p) :
+    V4.Obs.parseVendorData (Client.Lease.toG p.opts) ≠ .panic ∧
+    V4.Obs.getNetConfFromPacketv4 p.yiaddr (Client.Lease.toG p.opts) ≠ .panic :=
+  ⟨V4.Obs.parseVendorData_ne_panic _, V4.Obs.getNetConfFromPacketv4_ne_panic _ _⟩
+
+/-- the `Juniper-` case with the shortest possible value: two pieces, `p[1] = ""` -/
+example : Str.split V4.Obs.pfxJuniperDash V4.Obs.sepDash = [Str.ascii "Juniper".toList, []] := by decide
+
+/-! ### DHCPv4 typed accessors on decoded packets, DHCPv6 re-encoding -/
+
+/-- **C03 (DHCPv4 typed accessors).** The accessor models of C17
+(`V4.Acc.*`, Dhcp/V4/Values.lean) read a decoded packet `p` as
+`toG p.opts`.  Twenty-six of the twenty-nine return a plain value (address,
+list, string, duration, pair …): their result type has no panic outcome because
+their Go bodies contain no panic-capable operation beyond the `FromBytes` of
+the value type, which goes through the `uio.Lexer` (short reads set a sticky
+error instead of slicing out of range).  The three whose model can express a
+failure — `DomainSearch` (label decoder), `MaxMessageSize` (`(uint16, error)`)
+and `AutoConfigure` (`GetByte`: `data[0]` behind `len(data) != 1`) — do not
+panic, for every option map. -/
+theorem C03_v4_accessors (o : V4.GOpts) :
+    V4.Acc.domainSearch o ≠ .panic ∧ V4.Acc.maxMessageSize o ≠ .panic ∧
+    V4.getByte V4.Code.autoConfigure o ≠ .panic := by
+  refine ⟨V4.Obs.domainSearch_ne_panic o, ?_, ?_⟩
+  · unfold V4.Acc.maxMessageSize V4.getUint16
+    split
+    · simp
+    · split <;> simp
+  · unfold V4.getByte
+    split <;> simp
+
+theorem C03_v4_accessors_decoded (b : Bytes) (p : V4.Pkt4) (_h : V4.dec4 b = .ok p) :
+    V4.Acc.domainSearch (Client.Lease.toG p.opts) ≠ .panic ∧ V4.Acc.maxMessageSize (Client.Lease.toG p.opts) ≠ .panic ∧
+    V4.getByte V4.Code.autoConfigure (Client.Lease.toG p.opts) ≠ .panic :=
+  C03_v4_accessors _
+
+/-- **C03 (re-encoding a decoded DHCPv6 message).** `encMsg` is a total function: the
+DHCPv6 encoders have no panic-capable operation of their own.  The one way
+`ToBytes` can panic is through an embedded DHCPv4 message (option 87) whose
+header holds a non-IPv4 address (`V4.enc4 = panic`); `encMsgR` is `ToBytes` with
+that panic (searched at every depth).  On a decoded message it cannot happen:
+every embedded DHCPv4 message was itself decoded, so it re-encodes
+(`C03_enc_decoded`). -/
+theorem C03_reencode6 (b : Bytes) (m : V6.Msg6) (h : V6.dec6 b = .ok m) : V6.encMsgR m = .ok (V6.encMsg m) :=
+  V6.encMsgR_dec (V6.decMsg_of_dec6 h)
+
+def C03_reencode6_full : Prop := ∀ m : V6.Msg6, V6.encMsgR m ≠ .panic
+
+theorem C03_reencode6_counterexample : ¬ C03_reencode6_full := by
+  intro h
+  exact h (.msg 1 [] [.dhcpv4Msg (V4.Pkt4.mk 1 1 [] 0 [0, 0, 0, 0] 0 0 (some [1, 2, 3, 4, 5]) none none none [] []
+    V4.Opts.empty)]) (by decide)
 
 end Dhcp.Props
